@@ -394,4 +394,11 @@ impl Database {
         };
         Ok(Some(s.verif_layout(id.table_id).await?))
     }
+
+    /// Verification hook: wait for a running compaction to finish (no-op for the memory engine).
+    pub async fn verif_quiesce(&self) {
+        if let StorageImpl::SecondaryStorage(s) = &self.storage {
+            s.verif_quiesce().await;
+        }
+    }
 }
